@@ -26,7 +26,7 @@ Proof.
   - unfold cell_signal. destruct (cell_test c); simpl; lia.
   - lia.
   - unfold cell_settest. destruct (ckind_of c); simpl; lia.
-  - unfold cell_flowset. destruct (ckind_of c) as [t | [u |]]; simpl; try lia.
+  - unfold cell_flowset. destruct (ckind_of c) as [t | [u |] | eb]; simpl; try lia.
 Qed.
 
 Lemma hung_waits_cons : forall r o ops c,
@@ -57,7 +57,7 @@ Lemma signal_exactly_once : forall c : cell, cell_test c = true ->
   snd (cstep CoSignal (fst (cstep CoSignal c))) = [].
 Proof.
   intros c T. simpl. unfold cell_signal. rewrite T. simpl.
-  repeat split. unfold cell_test in *. simpl. destruct (ckind_of c) as [b | [v |]]; try rewrite T; reflexivity.
+  repeat split. unfold cell_test in *. simpl. destruct (ckind_of c) as [b | [v |] | eb]; try rewrite T; reflexivity.
 Qed.
 
 (* a step wakes r only if r was waiting, and only (a) by unhang, or (b) by a signal or a
@@ -75,7 +75,7 @@ Proof.
     unfold cell_test in *. simpl. exact T.
   - intro H. split; [exact H | left; reflexivity].
   - intros [].
-  - unfold cell_flowset. destruct (ckind_of c) as [t | [u |]] eqn:K; simpl; try (intros []).
+  - unfold cell_flowset. destruct (ckind_of c) as [t | [u |] | eb] eqn:K; simpl; try (intros []).
     intro H. split; [exact H |]. right. split; [reflexivity | right; eexists; reflexivity].
 Qed.
 
